@@ -1087,6 +1087,12 @@ fn gen_vr(rng: &mut Rng, depth: u32, nonneg: bool) -> VR {
 pub fn gen_case(rng: &mut Rng, opts: &GenOpts) -> SCase {
     let n_v = 2 + rng.below(opts.max_v.max(3) - 1);
     let (coords, edges) = gen_graph(rng, n_v, opts.len_style);
+    gen_case_on(rng, opts, coords, edges)
+}
+
+/// the models, query and algorithm of a generated case on a given graph (C13 supplies its own shapes)
+pub fn gen_case_on(rng: &mut Rng, opts: &GenOpts, coords: Vec<(f32, f32)>, edges: Vec<(usize, usize, f64)>) -> SCase {
+    let n_v = coords.len();
     let n_e = edges.len();
     let use_speed = opts.allow_speed && rng.chance(1, 2);
     let du = *rng.pick(&DU);
